@@ -5,6 +5,8 @@ cd /verif/coq
 if grep -rnE '\b(Admitted|admit|Axiom|Parameter|Conjecture|bypass_check)\b|Unset Guard' --include=*.v . | grep -v '(\*.*\*)' ; then
   echo "grep gate failed" >&2; exit 1
 fi
+# _CoqProject lists every .v file under coq/ (dependencies are found by coqdep)
+{ echo "-Q . QV"; find . -name '*.v' -not -path './.work/*' | sed 's|^\./||' | sort; } > _CoqProject
 coq_makefile -f _CoqProject -o Makefile > /dev/null
 timeout 3000 make -j16 2>&1 | grep -v "^COQC\|^COQDEP\|WARNING conda" || true
 # every listed file must have been built
